@@ -11,6 +11,9 @@ def run(ctx):
     common.replay_layer(ctx, "MC_Walk.tla", "MC_Walk_select.cfg", "walk-replay", "walksel", args={"binary_every": 400 if q else 40, "stride": 2 if q else 1}, workers=10, heap="3g", env_extra=env)
     common.replay_layer(ctx, "MC_Walk.tla", "MC_Walk_positions.cfg", "walk-replay", "walkpos", args={"binary_every": 900 if q else 60, "stride": 5 if q else 1, "dst": 1}, workers=10, heap="3g", env_extra=env)
     common.replay_layer(ctx, "MC_Walk.tla", "MC_Walk_layouts.cfg", "walk-layouts", "walklay", args={"stride": 3 if q else 1}, workers=10, heap="3g", env_extra=env)
+    # beyond the bound: random logs of 5..40 headings over 70 days, random bounds / positions / --today / zone offsets
+    common.trace_layer(ctx, "walk-trace", "Trace_Walk.tla", "Trace_Walk.cfg", "walk", "walk-trace-rejected", {"logs": 2000 if q else 30000},
+                       "filter/filter.go", selftests=[("selected-heading-dropped", drop_selected), ("unselected-heading-added", add_unselected)])
     if ctx.tier == "thorough":
         vlib.vacuity_check(ctx, "MC_Walk.tla", "MC_Walk_positions.cfg", expect_zero=())
     return vlib.finish(
@@ -20,10 +23,26 @@ def run(ctx):
              "last7/last30 x every bound spec at global/sub-command/both positions x 5 zones x summary; (3) summary under 53 zone offsets; "
              "invariants SelectedExactly / SummarySelectsThatDay / FileOrderKept.  Every terminal state is replayed on 7 period-aware "
              "commands in-process with time.Local set to the zone (plus a sample on the binary under TZ), including the comparison with "
-             "the file that has the other days deleted; non-trivial = a proper non-empty subset of the headings is selected",
+             "the file that has the other days deleted; beyond the bound, random logs of 5..40 headings over 70 days with random bounds / positions / --today / zone offsets (15-minute steps) validated by TLC against Trace_Walk.tla; non-trivial = a proper non-empty subset of the headings is selected",
         exhaustive=True, extra_cov=dict(),
         trusted=["headings carry unique food names f<i>, from which the selected headings are read back out of every report",
                  "time.Local assignment in-process / TZ on the binary (fixed-offset zones)"])
+
+
+def drop_selected(tr):
+    if tr[1]["selected"]:
+        del tr[1]["selected"][-1]
+        return tr
+    return None
+
+
+def add_unselected(tr):
+    sel = tr[1]["selected"]
+    missing = [i for i in range(1, len(tr[0]["log"]) + 1) if i not in sel]
+    if missing:
+        tr[1]["selected"] = sorted(sel + [missing[0]])
+        return tr
+    return None
 
 
 def replay(ctx, path):
